@@ -159,7 +159,7 @@ PROPS = {
         "lean_targets": ["Proofs.GenWordOps", "Proofs.GenTables"],
     },
     "C14": {
-        "extra_modules": ["C14b", "C14c"],
+        "extra_modules": ["C14b", "C14c", "CGenK"],
         "gens": [{"name": "mix", "quick": 900, "thorough": 4000}, {"name": "C14", "quick": 2500, "thorough": 12000}],
         "nontrivial": {"inexact", "edge", "setint", "setrat", "newdec", "range"},
         "rule": ARITH_RULE + "conversions Int Int64 Uint64 Rat IsInt MinPrec Sign and setters SetInt SetInt64 SetUint64 SetRat NewDecimal; non-trivial = truncation happened, value within the 2^63/2^64/10^19 edge band, or a big-integer/rational setter",
